@@ -122,7 +122,7 @@ theorem checkPatch_ok_iff {E fs acc ns p acc'} (hE : EnvOK2 E fs) :
           · have hk1 : (d.kind != p.kind) = true := by simp [hk]
             have hk2 : (d.kind == p.kind) = false := by simp [hk]
             simp [hk1, hk2]
-        | «alias» _ | routes _ | other =>
+        | «alias» _ | routes _ | other | annot _ =>
           simp only [shapeOf] at hspec
           cases qd <;> simp [declShape] at hspec <;> simp
 
@@ -275,57 +275,7 @@ theorem importsLegal_merge (fs : List File) : importsLegal (mergeFiles fs) = imp
   have : nsNames (mergeFiles fs) [] = nsNames fs [] := nsNames_mergeG fs fs []
   rw [this]
 
-/-! ## `compile`, `denote`, `Legal` through the merge -/
-
-theorem compile_core {rx fs api} (h : compile rx fs = .ok api) : compileCore rx (mergeFiles fs) = .ok api := by
-  unfold compile at h
-  split at h
-  · cases h
-  · split at h
-    · cases h
-    · exact h
-
 theorem LegalCore_names {rx fs} (h : LegalCore rx fs = true) : namesLegal fs = true ∧ importsLegal fs = true :=
   let ⟨a, b, _⟩ := Legal_parts h; ⟨a, b⟩
-
-/-- **accepted = legal**, patches included -/
-theorem compile_ok_iff_legal_patches (rx : String → Bool) (fs : List File) (hl : nsLexical fs = true) :
-    (∃ api, compile rx fs = .ok api) ↔ Legal rx fs = true := by
-  have hlm : nsLexical (mergeFiles fs) = true := by rw [nsLexical_merge]; exact hl
-  unfold Legal
-  rw [Bool.and_eq_true]
-  constructor
-  · rintro ⟨api, h⟩
-    have hcore := compile_core h
-    have hL := (compile_ok_iff_legal rx (mergeFiles fs) hlm).mp ⟨api, hcore⟩
-    refine ⟨?_, hL⟩
-    unfold compile at h
-    cases hb : buildEnv fs with
-    | error e => rw [hb] at h; cases h
-    | ok E =>
-      rw [hb] at h
-      simp only at h
-      rw [← patches_ok_iff (buildEnv_ok2 hb)]
-      cases hc : checkPatches E [] (patchesOf fs) with
-      | error e => rw [hc] at h; cases h
-      | ok u => rfl
-  · rintro ⟨hp, hL⟩
-    obtain ⟨api, hapi⟩ := (compile_ok_iff_legal rx (mergeFiles fs) hlm).mpr hL
-    obtain ⟨hn, hi⟩ := LegalCore_names hL
-    rw [namesLegal_merge] at hn
-    rw [importsLegal_merge] at hi
-    have hb := buildEnv_ok_iff fs hl
-    rw [hn, hi] at hb
-    cases hE : buildEnv fs with
-    | error e => rw [hE] at hb; cases hb
-    | ok E =>
-      have hc := patches_ok_iff (buildEnv_ok2 hE)
-      rw [hp] at hc
-      refine ⟨api, ?_⟩
-      unfold compile
-      simp only [hE]
-      cases hcp : checkPatches E [] (patchesOf fs) with
-      | error e => rw [hcp] at hc; cases hc
-      | ok u => cases u; exact hapi
 
 end StoneVerif.FeCompile.L
